@@ -24,6 +24,12 @@ META = {
     "(theorems over exact rationals, doubles sampled with 1e-9 relative slack); CRS handling of from_bbox / "
     "from_geopolygon (to_crs, utm shortcut) is outside the model; the strict 'less than one pixel + tol' bound "
     "excludes the degenerate zero-width region with tol = 0 (equality there, proved and replayed).",
+    "inventory_not_modelled": "geobox.py / math.py parts of the anchors without a Lean mirror in Model/C08: the real projection "
+    "(pyproj) behind crs='utm*' and from_geopolygon(crs=other) -- modelled with the projection as a parameter (fromBboxUtm, "
+    "fromGeopolygonCrs), exact correspondence with a substituted affine projection, real pyproj by the independent-projection "
+    "oracle; CRS bookkeeping of _norm_bbox (default epsg:4326, which UTM zone); densification options of to_crs; numeric "
+    "spelling coercions (float()) -- oracle only; non-finite coordinates; zoom_out / zoom_to(shape) live in Model/C02 "
+    "(zoom_to(resolution=) is linked to C08.fromBbox by theorem zoom_to_resolution_is_from_bbox).",
     "technique": "Lean 4 proof over hand model + exhaustive/random differential correspondence with real code",
     "design_ref": "DESIGN.md §4 C08",
 }
@@ -470,6 +476,70 @@ def sec_utm_shortcut(R: Run):
                  f"from_bbox(lonlat, crs={crs_s!r}) = {gb_s(g)} but from_bbox of the envelope {env} of the four corners projected "
                  f"independently in float64 to epsg:{epsg} = {want}", sig=f"utm-2sided|{how}")
         bbox_oracle(R, g, tuple(F(v) for v in env), (F(resv), F(-resv)), anch.snap(tight), F(tolf), F(1, 10**9), case, "from-bbox-utm-shortcut")
+
+
+def sec_utm_branch_exact(R: Run):
+    """the crs='utm' branch of from_bbox (_norm_bbox) with the projection substituted from the harness by a rotated dyadic
+    affine map (BoundingBox.to_crs is replaced for the duration of the call), so that the branch -- project the four
+    corners, take their envelope, then from_bbox as usual -- is compared exactly with the model's `fromBboxUtm`"""
+    GB, GeoBox, _norm_anchor, geom, resxy_, xy_ = _import()
+    from odc.geo.geom import BoundingBox
+    rng = R.rng
+    orig = BoundingBox.to_crs
+    for _ in range(R.pick(400, 4000)):
+        Av = [F(rng.randint(-16, 16), 8) * 1024, F(rng.randint(-16, 16), 8) * 1024, F(rng.randint(-64, 64)) * 16,
+              F(rng.randint(-16, 16), 8) * 1024, F(rng.randint(-16, 16), 8) * 1024, F(rng.randint(-64, 64)) * 16]
+        if Av[0] * Av[4] - Av[1] * Av[3] == 0:
+            continue
+        l, b = F(rng.randint(-64, 64), 8), F(rng.randint(-64, 64), 8)
+        r, t = l + F(rng.randint(1, 32), 8), b + F(rng.randint(1, 32), 8)
+        rx = F(rng.choice([-1, 1])) * F(2) ** rng.randint(0, 6)
+        ry = F(rng.choice([-1, 1])) * F(2) ** rng.randint(0, 6)
+        anch = rng.choice([Anch("s", "default"), Anch("s", "center"), Anch("e", "floating"), Anch("n", F(1, 4))])
+        tight = rng.random() < 0.15
+        tol = rng.choice(TOLS)
+        sn = anch.snap(tight)
+        corners = [(l, b), (l, t), (r, t), (r, b)]
+        pc = [(Av[0] * x + Av[1] * y + Av[2], Av[3] * x + Av[4] * y + Av[5]) for x, y in corners]
+        env = (min(p[0] for p in pc), min(p[1] for p in pc), max(p[0] for p in pc), max(p[1] for p in pc))
+        mode = rng.choice(["res", "res", "shape"])
+        shape = None
+        if mode == "shape":
+            shape = (2 ** rng.randint(0, 5), 2 ** rng.randint(0, 5))
+            px, py = (env[2] - env[0]) / shape[1], (env[3] - env[1]) / shape[0]
+            ok = px > 0 and py > 0 and axis_exact(env[0], env[2], px, None if sn is None else sn[0]) and axis_exact(
+                env[1], env[3], -py, None if sn is None else sn[1])
+        else:
+            ok = axis_exact(env[0], env[2], rx, None if sn is None else sn[0]) and axis_exact(env[1], env[3], ry, None if sn is None else sn[1])
+        if not ok:
+            R.count("utm-branch:skipped-inexact")
+            continue
+        Af = [float(v) for v in Av]
+
+        def fake_to_crs(self, crs, **kw):
+            pts_ = [(Af[0] * x + Af[1] * y + Af[2], Af[3] * x + Af[4] * y + Af[5]) for x, y in self.polygon.exterior.points[:4]]
+            xs, ys = [p[0] for p in pts_], [p[1] for p in pts_]
+            return BoundingBox(min(xs), min(ys), max(xs), max(ys), crs="epsg:32755")
+
+        out = []
+
+        def f():
+            BoundingBox.to_crs = fake_to_crs
+            try:
+                g = GeoBox.from_bbox((float(l), float(b), float(r), float(t)), "utm", tight=tight, shape=shape,
+                                     resolution=None if mode == "shape" else resxy_(float(rx), float(ry)),
+                                     anchor=anch.py(GB, xy_), tol=float(tol))
+            finally:
+                BoundingBox.to_crs = orig
+            out.append(g)
+            return gb_s(g)
+
+        line = (f"c08 bboxutm {frac_s(l)} {frac_s(b)} {frac_s(r)} {frac_s(t)} {';'.join(frac_s(v) for v in Av)} {bool_s(tight)} "
+                f"{shape_tok(shape)} {res_tok(None if mode == 'shape' else (rx, ry))} {anch.tok()} {frac_s(tol)}")
+        R.corr(line, f, sig=f"bboxutm|{mode}|{'float' if sn is None else 'snap'}")
+        if out and mode == "res":
+            bbox_oracle(R, out[0], env, (rx, ry), sn, tol, F(0), {"fn": "GeoBox.from_bbox(crs='utm')", "line": line}, "from-bbox-utm-branch")
+    assert BoundingBox.to_crs is orig
 
 
 def run(R: Run):
@@ -1007,6 +1077,7 @@ def run(R: Run):
                 call(bbF, tight, (rng.randint(1, 5000), rng.randint(1, 5000)), None, anch, F(tolf), "float-shape", False, F(1, 10**9))
             else:
                 call(bbF, tight, rng.randint(1, 5000), None, anch, F(tolf), "float-int-shape", False, F(1, 10**9))
+    sec_utm_branch_exact(R)
     sec_spelling(R)
     sec_cross_crs(R)
     sec_utm_shortcut(R)
